@@ -23,7 +23,12 @@ THEOREMS = ["C08_codec_opc_satisfiable", "C08_closure", "C08_write_read_ok", "C0
             "C08_example"]
 
 CONTENTS = [b"", b"one", b"two", b"%PDF-1.4 three", b"\x00\xff\x10", b"five" * 50]
-CTYPES = ["", "application/xml", "application/json", "text/plain", "application/pdf", "image/png"]
+CTYPES = ["", "application/xml", "application/json", "text/plain", "application/pdf", "image/png",
+          # the same media type with other parameters / in another case: different content types for the container
+          "text/plain; charset=utf-8", "text/plain; charset=iso-8859-1", "TEXT/PLAIN", "application/pdf; version=1.4",
+          "Application/PDF"]
+CTYPE_VARIANTS = {3: [6, 7, 8], 6: [3, 7, 8], 7: [3, 6, 8], 8: [3, 6, 7], 4: [9, 10], 9: [4, 10], 10: [4, 9]}
+ID_KINDS = ["list", "tuple", "set", "dictkeys", "generator", "iter"]
 ERR = {"KeyError": 1, "TypeError": 2, "UnexpectedTypeError": 3, "ValueError": 4, "IndexError": 5,
        "RuntimeError": 6}
 
@@ -158,7 +163,7 @@ def gen_case(rng):
     files = []
     for n in dict.fromkeys(hot + [rng.choice(ABSOLUTE + RELATIVE)]):
         if rng.random() < 0.75:
-            files.append([n, rng.randrange(len(CONTENTS)), rng.choice([0, 1, 3, 4, 4, 5, 5])])
+            files.append([n, rng.randrange(len(CONTENTS)), rng.choice([0, 1, 3, 4, 4, 5, 5, 6, 7, 8, 9, 10])])
     # writer calls
     calls = []
     json_ = rng.random() < 0.5
@@ -167,17 +172,17 @@ def gen_case(rng):
         aas_ids = [i for i in shell_ids if rng.random() < 0.85] or shell_ids[:1]
         if rng.random() < 0.03:
             aas_ids = aas_ids + [rng.choice(absent + sm_ids + cd_ids)]
-        calls.append(["aas", aas_ids, json_])
+        calls.append(["aas", aas_ids, json_, rng.choice(ID_KINDS + (["single"] if len(aas_ids) == 1 else []))])
         if rng.random() < 0.2:
             pool = [p for p in PARTS if p not in ("/aasx/data.xml", "/aasx/data.json")]
             calls.append(["objs", rng.choice(pool), [rng.choice(ids) for _ in range(rng.randint(0, 4))],
-                          rng.random() < 0.5, rng.random() < 0.15])
+                          rng.random() < 0.5, rng.random() < 0.15, rng.choice(ID_KINDS)])
     else:
         pool = list(PARTS)
         rng.shuffle(pool)
         for pn in pool[:rng.randint(1, 3)]:
             calls.append(["objs", pn, [rng.choice(ids) for _ in range(rng.randint(0, 6))],
-                          rng.random() < 0.5, rng.random() < 0.1])
+                          rng.random() < 0.5, rng.random() < 0.1, rng.choice(ID_KINDS)])
     if rng.random() < 0.5:
         calls.insert(rng.randint(0, len(calls)), ["core", rng.randrange(3)])
         if rng.random() < 0.03:
@@ -207,7 +212,17 @@ def gen_case(rng):
         for _ in range(rng.randint(1, 4)):
             n = rng.choice(names)
             if n.startswith("/") or rng.random() < 0.3:
-                f0.append([n, rng.randrange(len(CONTENTS)), rng.choice([0, 1, 3, 4, 5])])
+                f0.append([n, rng.randrange(len(CONTENTS)), rng.choice([0, 1, 3, 4, 5, 6, 8])])
+        # the receiver already holds a file of the package: same name (as resolved in the package), same bytes,
+        # and the same content type, or one that differs only in parameters / letter case, or another one
+        for n, c, t in files:
+            if rng.random() < 0.35:
+                rp = resolve(n, "/aasx/data.xml") if is_local(n) else None
+                if rp:
+                    r = rng.random()
+                    t2 = t if r < 0.25 else rng.choice(CTYPE_VARIANTS[t]) if t in CTYPE_VARIANTS and r < 0.85 \
+                        else rng.choice([0, 1, 5])
+                    f0.append([rp, c if rng.random() < 0.85 else rng.randrange(len(CONTENTS)), t2])
     return {"objs": objs, "files": files, "calls": calls, "S0": s0, "F0": f0, "override": rng.random() < 0.5}
 
 
@@ -353,6 +368,26 @@ def coq_obj(model, o):
     return f"Subm {i}%nat {tok_of(o)}%nat {coq_list(sems_of(model, o))} {coq_list(nodes)}"
 
 
+def make_ids(ids, kind):
+    """the ids as the kind of Iterable asked for, and the order in which it yields them"""
+    strs = [sid(i) for i in ids]
+    if kind == "single" and len(strs) == 1:
+        return strs[0], list(ids)
+    if kind == "tuple":
+        return tuple(strs), list(ids)
+    if kind == "set":
+        s = set(strs)
+        return s, [int(x[1:]) for x in s]
+    if kind == "dictkeys":
+        d = dict.fromkeys(strs)
+        return d.keys(), [int(x[1:]) for x in d]
+    if kind == "generator":
+        return (x for x in strs), list(ids)
+    if kind == "iter":
+        return iter(strs), list(ids)
+    return strs, list(ids)
+
+
 def coq_call(c):
     b = lambda x: "true" if x else "false"
     ids = lambda l: coq_list(f"{i}%nat" for i in l)
@@ -429,16 +464,22 @@ def run_sdk(case):
     obs = []
     buf = io.BytesIO()
     werr = None
+    eff = [list(c) for c in case["calls"]]      # the calls with the ids in the order the iterables yield them
+    res["calls_eff"] = eff
     with warnings.catch_warnings(record=True) as wlist:
         warnings.simplefilter("always")
         try:
             w = aasx.AASXWriter(buf)
             try:
-                for c in case["calls"]:
+                for k, c in enumerate(case["calls"]):
                     if c[0] == "aas":
-                        w.write_aas([sid(i) for i in c[1]], S, F, write_json=c[2])
+                        it, order = make_ids(c[1], c[3] if len(c) > 3 else "list")
+                        eff[k] = ["aas", order] + list(c[2:])
+                        w.write_aas(it, S, F, write_json=c[2])
                     elif c[0] == "objs":
-                        w.write_aas_objects(c[1], [sid(i) for i in c[2]], S, F, write_json=c[3], split_part=c[4])
+                        it, order = make_ids(c[2], c[5] if len(c) > 5 else "list")
+                        eff[k] = ["objs", c[1], order] + list(c[3:])
+                        w.write_aas_objects(c[1], it, S, F, write_json=c[3], split_part=c[4])
                     elif c[0] == "core":
                         w.write_core_properties(cores()[c[1]])
                     else:
@@ -792,7 +833,7 @@ def shrink_case(case, pred):
 
 def case_term(case, res):
     b = "true" if case["override"] else "false"
-    return ("(" + ", ".join([res["terms"][0], coq_fops(case["files"]), coq_list(coq_call(c) for c in case["calls"]),
+    return ("(" + ", ".join([res["terms"][0], coq_fops(case["files"]), coq_list(coq_call(c) for c in res["calls_eff"]),
                              res["terms"][1], coq_fops(case["F0"]), b,
                              coq_z(common.zhash_d(res["obs"], 2))]) + ")")
 
@@ -804,7 +845,7 @@ PRELUDE = ("From Coq Require Import List ZArith String.\n"
 def model_observation(case, res):
     b = "true" if case["override"] else "false"
     return common.coq_eval("C08", PRELUDE, f"observe {res['terms'][0]} (run {coq_fops(case['files'])}) "
-                           f"{coq_list(coq_call(c) for c in case['calls'])} {res['terms'][1]} "
+                           f"{coq_list(coq_call(c) for c in res['calls_eff'])} {res['terms'][1]} "
                            f"(run {coq_fops(case['F0'])}) {b}")
 
 
@@ -893,6 +934,14 @@ def run(chk):
         for f in nesting(case):
             chk.count("file-at=" + f)
         chk.count("shells=%d" % sum(1 for o in case["objs"] if o["kind"] == "shell"))
+        for c in case["calls"]:
+            if c[0] in ("aas", "objs"):
+                chk.count("ids-as=" + (c[3] if c[0] == "aas" and len(c) > 3 else c[5] if c[0] == "objs" and len(c) > 5 else "list"))
+        fdict = {(resolve(n, "/aasx/data.xml") if is_local(n) else n): (c, t) for n, c, t in case["files"]}
+        for n, c, t in case["F0"]:
+            if n in fdict and fdict[n][0] == c:
+                chk.count("receiver-holds-same-name-and-bytes:" + ("same-ctype" if fdict[n][1] == t else
+                          "ctype-variant" if t in CTYPE_VARIANTS.get(fdict[n][1], ()) else "other-ctype"))
         for sig, msg in fails:
             if sig in reported:
                 chk.fail(sig, msg, {"note": "further instance; see the first replay of this signature"})
@@ -946,7 +995,10 @@ def run(chk):
                       rule="seeded random packages: 1-3 shells, 0-4 submodels (elements nested <= 3 deep in collections, "
                            "lists, entities, operations, annotated relationships), 0-3 concept descriptions, unresolved "
                            "and wrongly typed references, File values of every path form sharing a small hot name pool "
-                           "with the file containers, write_aas and/or write_aas_objects sessions with core properties "
+                           "with the file containers (content types incl. parameter / letter-case variants of one media type; receiver "
+                           "pre-populated with the package's own names and bytes under the same, a variant or another "
+                           "content type), write_aas and/or write_aas_objects sessions (ids passed as list, tuple, set, "
+                           "dict view, generator, iterator or a single Identifier) with core properties "
                            "and thumbnail, empty or pre-populated receiving store/container, override on/off; "
                            "non-trivial = written, read back and at least one object read; distinct by the whole case")
 
